@@ -1,6 +1,7 @@
 #!/bin/bash
 # try_seeded.sh <patch.diff> <Cxx> [Cyy ...] : apply a seeded change to /repo, run the quick checks, undo it.
 diff=$1; shift
+export VERIF_EVIDENCE_DIR=/verif/build/evidence-seeded   # never overwrite the committed evidence with runs on a changed tree
 cd /repo || exit 2
 if [ -n "$(git status --porcelain)" ]; then echo "/repo is not clean"; exit 2; fi
 git apply "$diff" || { echo "patch does not apply"; exit 2; }
